@@ -150,7 +150,26 @@ func TestC13Demux(t *testing.T) {
 		if kind == gen.KindPMT {
 			pid = uint16(rapid.IntRange(0x20, 0x1ffe).Draw(t, "pmtpid"))
 			pat := &ref.Section{TableID: 0, CurrentNext: true, PAT: &astits.PATData{TransportStreamID: 7, Programs: []*astits.PATProgram{{ProgramNumber: uint16(rapid.IntRange(1, 0xffff).Draw(t, "pn")), ProgramMapID: pid}}}}
-			pu := buildPSIUnit(t, 0, &ccPAT, []*ref.Section{pat}, true, "pat")
+			patSecs := []*ref.Section{pat}
+			if gen.Chance(t, 40, "patmulti") {
+				// the PAT unit has several sections; the one announcing the PMT PID is at a random place among them
+				n := rapid.IntRange(1, 2).Draw(t, "patextra")
+				at := gen.Uniform(t, n+1, "patat")
+				patSecs = nil
+				for i := 0; i <= n; i++ {
+					if i == at {
+						patSecs = append(patSecs, pat)
+						continue
+					}
+					other := pid ^ uint16(1+i)
+					if other < 0x20 || other > 0x1ffe {
+						other = 0x20 + uint16(i)
+					}
+					patSecs = append(patSecs, &ref.Section{TableID: 0, CurrentNext: true, Number: uint8(i), Last: uint8(n), PAT: &astits.PATData{TransportStreamID: 7, Programs: []*astits.PATProgram{{ProgramNumber: uint16(0x100 + i), ProgramMapID: other}}}})
+				}
+				rec.Class(fmt.Sprintf("pmt_pid_announced_by_section_%d_of_a_multi_section_pat", at))
+			}
+			pu := buildPSIUnit(t, 0, &ccPAT, patSecs, true, "pat")
 			pkts = append(pkts, pu.packets...)
 			want = append(want, pu.expectItems()...)
 		}
